@@ -264,11 +264,18 @@ def check_entries(P, R, q, spec):
                         isinstance(s.value, ast.Call) and au.call_name(
                             s.value) == 'dict' for s in defs)
                 elif defs:
+                    # a dictionary object created in this call (possibly
+                    # seeded with constants, e.g. the terminal)
                     ok = all(
                         (isinstance(s.value, ast.Call) and au.call_name(
                             s.value) == 'dict' and not s.value.args)
-                        or (isinstance(s.value, ast.Dict)
-                            and not s.value.keys) for s in defs)
+                        or (isinstance(s.value, ast.Dict) and all(
+                            isinstance(k, ast.Constant) or au.const_int(
+                                k) is not None
+                            for k in s.value.keys if k is not None)
+                            and all(au.const_int(v) is not None
+                                    for v in s.value.values))
+                        for s in defs)
             what = f'{eq} -> {f.name}: memo `{memo}` is created per call'
             if ok:
                 R.holds('R-MEMO', eq, what)
